@@ -11,7 +11,9 @@ EXPLANATION = (
     "collected (e.g. in_trend: the query has seen its start event). A field that guards the update in one sibling and not "
     "in the other makes the count depend on whether the burst was shared."
 )
-DECIDED = ["the shared and the non-shared graphlet processor update a query's trend count under the same per-query guards"]
+DECIDED = ["the shared and the non-shared graphlet processor update a query's trend count under the same per-query guards",
+           "both processors accumulate into the count (saturating add onto the previous count) and advance snapshot_value together with every count update",
+           "a closed graphlet is handed to exactly one of the two processors, with the same graphlet and query list, and is marked processed on every such path"]
 NOT_DECIDED = ["the counts themselves (equality with brute-force enumeration)", "snapshot propagation coefficients", "split / merge decisions of the optimizer"]
 
 H = "varpulis_runtime::hamlet::aggregator::"
@@ -20,6 +22,91 @@ SIBS = (H + "HamletAggregator::process_shared_graphlet", H + "HamletAggregator::
 
 
 def run(ctx):
+    ctx.guard("sibling-update", lambda: run_update_shape(ctx))
+    run_guards(ctx)
+
+
+def writes_of(h, field):
+    from vpr import hirq as HQ
+    return [x for x in HQ.walk(h["body"]) if x.get("k") == "assign" and HQ.strip(x["l"]).get("k") == "field"
+            and HQ.strip(x["l"])["name"] == field and HQ.strip(x["l"]).get("adt") == QS]
+
+
+def run_update_shape(ctx):
+    from vpr import hirq as HQ
+    R = "sibling-update"
+    n = 0
+    for fn in SIBS:
+        h = ctx.need_hir(fn, rule=R)
+        name = fn.rsplit("::", 1)[1]
+        cw, sw = writes_of(h, "count"), writes_of(h, "snapshot_value")
+        n += len(cw)
+        for i, w in enumerate(cw):
+            key = "%s:count#%d" % (name, i)
+            owner = HQ.local_key(HQ.strip(w["l"])["e"])
+            r = HQ.strip(w["r"])
+            acc = False
+            if w["op"] == "Add":
+                acc = True
+            elif r.get("k") == "mcall" and r["method"] in ("saturating_add", "wrapping_add", "checked_add"):
+                ops = [HQ.strip(r["recv"])] + [HQ.strip(a) for a in r["args"]]
+                acc = any(o.get("k") == "field" and o["name"] == "count" and o.get("adt") == QS and HQ.local_key(o["e"]) == owner for o in ops)
+            elif r.get("k") == "bin" and r["op"] == "Add":
+                ops = [HQ.strip(r["l"]), HQ.strip(r["r"])]
+                acc = any(o.get("k") == "field" and o["name"] == "count" and o.get("adt") == QS and HQ.local_key(o["e"]) == owner for o in ops)
+            if acc:
+                ctx.ok(R, key + ":accumulates", site=w["sp"])
+            else:
+                ctx.violation(R, key + ":accumulates", "%s assigns `%s` to a query's trend count instead of adding the graphlet's contribution to the previous count: the counts of earlier graphlets are lost in this processor only, so the total depends on the sharing decision" % (name, HQ.show(w["r"])[:80]), site=w["sp"])
+            # the snapshot value advances in the same block, for the same query state
+            blk = [b for b in HQ.walk(h["body"]) if b.get("k") == "block" and any(s_["k"] == "expr" and HQ.strip(s_["e"]) is w for s_ in b["stmts"]) or (b.get("k") == "block" and b.get("tail") is not None and HQ.strip(b["tail"]) is w)]
+            together = False
+            for b in blk:
+                for s_ in b["stmts"] + ([{"k": "expr", "e": b["tail"]}] if b.get("tail") is not None else []):
+                    if s_["k"] == "expr":
+                        e = HQ.strip(s_["e"])
+                        if e in sw and HQ.local_key(HQ.strip(e["l"])["e"]) == owner:
+                            together = True
+            if together:
+                ctx.ok(R, key + ":advances-snapshot", site=w["sp"])
+            else:
+                ctx.violation(R, key + ":advances-snapshot", "%s updates a query's count without advancing its snapshot_value in the same step: the next graphlet starts from a stale incoming value in this processor only" % name, site=w["sp"])
+    ctx.floor(R, "count updates in the two graphlet processors", n, 2)
+    # dispatch
+    D = "dispatch"
+    hd = ctx.need_hir(H + "HamletAggregator::process_closed_graphlet", rule=D)
+    names = [s_.rsplit("::", 1)[1] for s_ in SIBS]
+    calls = [x for x in HQ.walk(hd["body"]) if x.get("k") == "mcall" and x["method"] in names]
+    if sorted(c["method"] for c in calls) != sorted(names):
+        ctx.violation(D, "one-of-two", "process_closed_graphlet calls %s; it must hand the graphlet to exactly one of %s" % ([c["method"] for c in calls], names), site=hd["span"])
+        return
+    ifs = [x for x in HQ.walk(hd["body"]) if x.get("k") == "if" and x.get("else") is not None]
+    pair = [x for x in ifs if {c2["method"] for c2 in HQ.walk(x["then"]) if c2.get("k") == "mcall" and c2["method"] in names} | {c2["method"] for c2 in HQ.walk(x["else"]) if c2.get("k") == "mcall" and c2["method"] in names} == set(names)
+            and len({c2["method"] for c2 in HQ.walk(x["then"]) if c2.get("k") == "mcall" and c2["method"] in names}) == 1]
+    if pair:
+        ctx.ok(D, "one-of-two", "the two processors are the two branches of one test", site=pair[0]["sp"])
+    else:
+        ctx.violation(D, "one-of-two", "the two graphlet processors are not the two branches of one test: a graphlet can be processed by both or by neither", site=hd["span"])
+    a0, a1 = [[HQ.show(a) for a in c["args"]] for c in calls]
+    if a0 == a1:
+        ctx.ok(D, "same-arguments", str(a0))
+    else:
+        ctx.violation(D, "same-arguments", "the shared processor is called with %s, the non-shared one with %s: the set of queries whose counts are updated depends on the sharing decision" % (a0, a1), site=calls[0]["sp"])
+    b = ctx.need_body(H + "HamletAggregator::process_closed_graphlet", rule=D)
+    mp = [bb for bb, t in b.calls() if t["callee"].endswith("::mark_processed")]
+    sib = [bb for bb, t in b.calls() if t["callee"].rsplit("::", 1)[1] in names]
+    if not mp:
+        ctx.violation(D, "marks-processed", "process_closed_graphlet never marks the graphlet processed (it would be counted again at flush)", site=hd["span"])
+    else:
+        rets = set(b.return_blocks())
+        bad = [bb for bb in sib if rets & b.reachable(bb, avoid_blocks=set(mp))]
+        if bad:
+            ctx.violation(D, "marks-processed", "a path from a graphlet processor call to the return skips mark_processed", site=b.term(bad[0])["sp"])
+        else:
+            ctx.ok(D, "marks-processed", "%d processor calls, all followed by mark_processed" % len(sib))
+
+
+def run_guards(ctx):
     F = ctx.facts()
     fields = [f["n"] for f in (F.fields(QS) or [])]
     if not fields:
